@@ -664,7 +664,11 @@ class Ref(Shape):
 
 class LoopContract:
     def __init__(self, invariant=None, variant=None, unroll=None, havoc=None, havoc_heap=None,
-                 entry_snapshot=False, body_ensures=None, never_iterates=False):
+                 entry_snapshot=False, body_ensures=None, never_iterates=False,
+                 exit_snapshot=False):
+        # keep a copy of the locals (and what they reach) as they are when the loop is left:
+        # postconditions read it as frame.__after_loop<k>__
+        self.exit_snapshot = exit_snapshot
         self.body_ensures = body_ensures or {}
         # the invariant excludes the loop condition on the verified domain (e.g. lines that fit):
         # the vacuity guard "body verified at least once" does not apply
@@ -720,6 +724,8 @@ class FnContract:
                        if k.startswith('cover_')]
         self.assume_inv = d.get('assume_inv', True)
         self.check_inv = d.get('check_inv', True)
+        # a constructor that deliberately leaves fields of the class shape to later phases
+        self.check_fields = d.get('check_fields', True)
         self.shapes = dict(d.get('shapes', {}))
         self.note = d.get('note', '')
         self.reify = d.get('reify')
@@ -849,7 +855,14 @@ def _unwrap_fn(obj, raw):
     if isinstance(raw, property):
         return raw.fget
     if isinstance(raw, (staticmethod, classmethod)):
-        return raw.__func__
+        raw = raw.__func__
+    # a memoising wrapper (functools.lru_cache): the wrapped function is what the contract is
+    # about; that its results are shared between calls is reported by the frame obligation
+    # `no_state_shared_between_calls` (pyvc/hidden.py), not by a crash of the registration
+    if hasattr(raw, 'cache_info') and hasattr(raw, '__wrapped__'):
+        raw = raw.__wrapped__
+    if hasattr(obj, 'cache_info') and hasattr(obj, '__wrapped__'):
+        obj = obj.__wrapped__
     if inspect.isfunction(raw):
         return raw
     if inspect.isfunction(obj):
